@@ -558,14 +558,20 @@ static BitOps gen_bitops(bool coder, int coder_kind) {
     if (coder) {
       nb = P(55) ? 0 : (P(60) ? R(1, 8) : R(9, 32));
       if (coder_kind == 4 && nb == 0) nb = P(50) ? 0 : R(1, 20);
-      // SymbolBitEncoder hands the values to EncodeSymbols, whose entropy estimate allocates O(largest value)
-      // counters (and breaks at 2^31, finding E1): widths are capped at 20 bits (24 thorough) for this coder.
-      if (coder_kind == 4 && nb > (g_thorough ? 24 : 20)) nb = g_thorough ? 24 : 20;
+      // SymbolBitEncoder hands the values to EncodeSymbols; while finding E1 was open its entropy estimate allocated
+      // O(largest value) counters, and widths were capped at 20 bits (24 thorough) for this coder.
+      if (coder_kind == 4 && open_finding("E1") && nb > (g_thorough ? 24 : 20)) nb = g_thorough ? 24 : 20;
     } else {
       nb = W({10, 45, 30, 15}) == 0 ? 0 : (P(50) ? R(1, 8) : R(9, 32));
     }
     b.nbits.push_back(static_cast<uint8_t>(nb));
     b.value.push_back(P(30) ? (P(50) ? 0u : 0xffffffffu) : U32());
+    if (coder && coder_kind == 4 && nb == 32 && (b.value.back() >> 31) && open_finding("F28")) {
+      // known finding F28: a 32-bit value with the top bit set cannot be represented by the symbol coder and
+      // SymbolBitEncoder::EndEncoding (void) drops the block silently
+      b.value.back() &= 0x7fffffffu;
+      count("excluded_F28_symbol_bit_coder_width_32_value_ge_2^31");
+    }
   }
   if (coder && sc == 2) {
     b.bulk_len = static_cast<uint32_t>(P(80) ? R(64, 3000) : R(3001, 20000));
@@ -683,7 +689,7 @@ static std::string enum_c17(int shard, int nshards) {
     }
     // every coder x every width 1..32
     for (int coder = 0; coder < 5 && e.empty(); ++coder) {
-      for (int nb = 1; nb <= (coder == 4 ? (g_thorough ? 24 : 20) : 32) && e.empty(); ++nb) {
+      for (int nb = 1; nb <= (coder == 4 && open_finding("E1") ? (g_thorough ? 24 : 20) : 32) && e.empty(); ++nb) {
         SeqSpec s;
         BufOp o;
         o.kind = 4;
@@ -692,6 +698,10 @@ static std::string enum_c17(int shard, int nshards) {
         for (int k = 0; k < 40; ++k) {
           o.bits.nbits.push_back(static_cast<uint8_t>(nb));
           o.bits.value.push_back(static_cast<uint32_t>(sm.next()));
+          if (coder == 4 && nb == 32 && open_finding("F28")) {
+            if (o.bits.value.back() >> 31) count("excluded_F28_symbol_bit_coder_width_32_value_ge_2^31");
+            o.bits.value.back() &= 0x7fffffffu;
+          }
         }
         s.ops.push_back(o);
         bool nt = false;
@@ -794,6 +804,20 @@ int main(int argc, char **argv) {
     SeqSpec s;
     if (!from_tokens(t, &s)) return "bad replay tokens";
     return guarded([&] { return run_seq(s, &nt); });
+  };
+  h.probe = [&](const std::string &id) -> std::string {
+    if (id == "F28") {
+      SeqSpec s;
+      BufOp o;
+      o.kind = 4;
+      o.a = 4;  // SymbolBitEncoder
+      o.bits.nbits = {32, 32, 32};
+      o.bits.value = {5u, 0x80000000u, 7u};
+      s.ops.push_back(o);
+      bool nt = false;
+      return guarded([&] { return run_seq(s, &nt); });
+    }
+    return "";
   };
   h.enumerate = [&](const std::string &mode) {
     const int shard = atoi(env("VERIF_SHARD", "0")), n = std::max(1, atoi(env("VERIF_NSHARDS", "1")));
